@@ -15,6 +15,7 @@ import (
 	"runtime"
 	"strings"
 	"sync"
+	"sync/atomic"
 	"testing"
 
 	"golang.org/x/crypto/ssh"
@@ -102,6 +103,33 @@ func algsForFormat(f string) []string {
 	return []string{f}
 }
 
+// crossAlgo mirrors SSHAuthClient!CrossAlgo: the algorithm name of the other family (plain <->
+// certificate) for the same key type.
+func crossAlgo(a string) string {
+	pairs := [][2]string{
+		{ssh.KeyAlgoRSASHA256, ssh.CertAlgoRSASHA256v01}, {ssh.KeyAlgoRSASHA512, ssh.CertAlgoRSASHA512v01},
+		{ssh.KeyAlgoRSA, ssh.CertAlgoRSAv01}, {ssh.KeyAlgoED25519, ssh.CertAlgoED25519v01},
+		{ssh.KeyAlgoECDSA256, ssh.CertAlgoECDSA256v01},
+	}
+	for _, p := range pairs {
+		if a == p[0] {
+			return p[1]
+		}
+		if a == p[1] {
+			return p[0]
+		}
+	}
+	return "ssh-dss"
+}
+
+// vacuity guard: PK_OK replies naming the other family's algorithm that answered a query for a
+// certificate key / a plain key
+var crossCert, crossPlain atomic.Int64
+var (
+	crossMu    sync.Mutex
+	crossByFmt = map[string]int{}
+)
+
 // resolve mirrors SSHAuthClient!Resolve: PK_OK templates are relative to the request answered.
 func resolve(p packet, req event) packet {
 	if p.T != "pkok" {
@@ -118,6 +146,22 @@ func resolve(p packet, req event) packet {
 		p.Algo = "ssh-dss"
 	case p.Algo == "@same":
 		p.Algo = req.Algo
+	case p.Algo == "@cross":
+		a := req.Algo
+		if a == "" {
+			a = req.Fmt
+		}
+		p.Algo = crossAlgo(a)
+		if p.Key == req.Key && !req.Sig {
+			crossMu.Lock()
+			crossByFmt[req.Fmt]++
+			crossMu.Unlock()
+			if strings.Contains(req.Fmt, "-cert-") {
+				crossCert.Add(1)
+			} else {
+				crossPlain.Add(1)
+			}
+		}
 	case p.Algo == "@fmt":
 		alt := req.Algo
 		for _, a := range algsForFormat(req.Fmt) {
@@ -631,6 +675,13 @@ func doReplay(t *testing.T, out *vutil.Out, cases []tcase) {
 			out.Sample(map[string]any{"cfg": c.Cfg, "script": names, "result": c.Res, "events": len(c.Events)})
 		}
 	}
+	out.Extra["cross_family_pkok_cert_key"] = int(crossCert.Load())
+	out.Extra["cross_family_pkok_plain_key"] = int(crossPlain.Load())
+	crossMu.Lock()
+	for _, f := range []string{ssh.KeyAlgoED25519, ssh.CertAlgoED25519v01, ssh.KeyAlgoRSA, ssh.CertAlgoRSAv01} {
+		out.Extra["cross_family_pkok:"+f] = crossByFmt[f]
+	}
+	crossMu.Unlock()
 	out.Extra["matched"] = matched
 	out.Extra["divergent"] = divergent
 	out.Extra["flagged_by_model_monitor"] = flagged
